@@ -34,6 +34,8 @@ class ShardState:
         self.nontrivial = set()
         self.nontrivial_count_only = 0
         self.classes = collections.Counter()
+        self.classes_gen = collections.Counter()     # generated cases only (not the exhaustive scopes)
+        self.evals_gen = 0
         self.samples = []
         self.inconclusive = 0
         self.inconclusive_samples = []
@@ -88,6 +90,10 @@ class ShardState:
         fails = self.filter_failures(case, res.get("failures", []))
         for lab in res.get("labels", []):
             self.classes[lab] += 1
+            if self.track_hashes:
+                self.classes_gen[lab] += 1
+        if self.track_hashes:
+            self.evals_gen += 1
         for lab, k in res.get("excluded", {}).items():
             self.excluded[lab] += k
         if res.get("nontrivial"):
@@ -137,7 +143,8 @@ class ShardState:
             "evaluations": self.evals,
             "nontrivial_hashes": sorted(self.nontrivial),
             "nontrivial_count_only": self.nontrivial_count_only,
-            "classes": dict(self.classes), "samples": self.samples,
+            "classes": dict(self.classes), "classes_generated": dict(self.classes_gen),
+            "evaluations_generated": self.evals_gen, "samples": self.samples,
             "inconclusive": self.inconclusive, "inconclusive_samples": self.inconclusive_samples,
             "attributed": dict(self.attributed), "excluded": dict(self.excluded),
             "found": self.found,
